@@ -732,18 +732,9 @@ func c02Kernels(c *hx.Ctx) {
 		}
 		c.Eval(fmt.Sprintf("opt|%v", freq), true)
 		if pan {
-			// optimal_table_depth_from_total: no panic is possible below a total of fib 35 - 1 counted symbols;
-			// above it a code size may exceed 32 and the bits[size] panic is the documented behaviour (the model
-			// panics on the same input: the jll-opt line above), outside the lossless alphabet's reach
-			var total uint64
-			for _, v := range freq {
-				total += v
-			}
-			if total+1 < 9227465 {
-				c02Fail(c, hx.Failure{Class: "jll-opt-panic", What: "BuildOptimalHuffmanTable panics below the depth-32 total bound: " + msg, Input: map[string]any{"freq": fmt.Sprint(freq)}})
-			} else {
-				c.Count("opt:panic-above-fib35-total")
-			}
+			// optimal_table_total: the routine returns a table for EVERY frequency vector (work array sized for the
+			// deepest possible tree since 9f5cc40); any panic is a failure
+			c02Fail(c, hx.Failure{Class: "jll-opt-panic", What: "BuildOptimalHuffmanTable panics: " + msg, Input: map[string]any{"freq": fmt.Sprint(freq)}})
 			continue
 		}
 		ok, strict := c02ValidTable(ot.Bits, ot.Values)
